@@ -6,6 +6,8 @@ coq/gen/Gen_fmtbuf.v:
                                  (true) or returns at the first error (false)   (WriterModel.tee_apply)
     pretty_root_falls_back : bool  Pretty's own span lookup `event.parent().and_then(..).or_else(lookup_current)` (true: an
                                  explicit-root event is printed inside the thread's current spans) or `ctx.parent_span()` (false)
+    on_record_atomic : bool      on_record takes `span.extensions_mut()` BEFORE it reads the stored FormattedFields and keeps it until
+                                 add_fields has appended in place (concurrent record calls on one span are serialised)
     gen_unrecognised : list string
 
 The model in Fmt/BufferModel.v hard-wires the rest of the protocol (thread-local `RefCell<String>`,
@@ -237,8 +239,29 @@ def analyse_scope(repo):
     return fallback, unrec
 
 
+def analyse_on_record(repo):
+    """fmt::Subscriber::on_record: is the span's extensions WRITE lock held across the read - append - store of the formatted
+    fields?  (same shape check as translators/json_fmt.py gen_on_record_atomic, C14)"""
+    unrec = []
+    subs = strip_comments(open(os.path.join(repo, FILE)).read())
+    orb = fn_body_in_impl(subs, r"impl<C, N, E, W> subscribe::Subscribe<C> for Subscriber<C, N, E, W>[^{]*\{", "on_record") or ""
+    atomic = bool(re.search(
+        r'^let span = ctx\.span\(id\)\.expect\("[^"]*"\); let mut extensions = span\.extensions_mut\(\); '
+        r'if let Some\(fields\) = extensions\.get_mut::<FormattedFields<N>>\(\) \{ let _ = self\.fmt_fields\.add_fields\(fields, values\); return; \}', orb)) \
+        and orb.count("extensions_mut()") == 1 and ".extensions()" not in orb
+    split = bool(re.search(r"span \.extensions\(\) \.get::<FormattedFields<N>>\(\)", orb)) and "extensions_mut().replace(" in orb
+    if not atomic and not split:
+        unrec.append("on_record: neither `extensions_mut()` held across `add_fields(fields, values)` nor the read-copy-replace form: `%s`" % orb[:120])
+    nsb = fn_body_in_impl(subs, r"impl<C, N, E, W> subscribe::Subscribe<C> for Subscriber<C, N, E, W>[^{]*\{", "on_new_span") or ""
+    if "if extensions.get_mut::<FormattedFields<N>>().is_none()" not in nsb or nsb.count("extensions_mut()") != 1:
+        unrec.append("on_new_span: the span's fields are not formatted once, under `extensions_mut()`, guarded by `is_none()`")
+    return atomic, unrec
+
+
 def main(repo, out):
     policy, unrec = analyse(repo)
+    rec_atomic, unrec_r = analyse_on_record(repo)
+    unrec = unrec + unrec_r
     both, unrec_w = analyse_writer(repo)
     pretty_fallback, unrec_s = analyse_scope(repo)
     unrec = unrec + unrec_w + unrec_s
@@ -254,6 +277,9 @@ def main(repo, out):
         "",
         "(** %s: `impl_tee!` (behind every io::Write method of `Tee`) calls both writers, then propagates an error. *)" % WFILE,
         "Definition tee_runs_both : bool := %s." % ("true" if both else "false"),
+        "",
+        "(** %s on_record: the extensions write lock is held across read - append - store of the span's formatted fields. *)" % FILE,
+        "Definition on_record_atomic : bool := %s." % ("true" if rec_atomic else "false"),
         "",
         "(** %s: Format<Pretty> looks its span up itself and falls back to the current span for an explicit root. *)" % FPRETTY,
         "Definition pretty_root_falls_back : bool := %s." % ("true" if pretty_fallback else "false"),
